@@ -189,7 +189,8 @@ class AcqInfo(MoveDataMixin):
                 case np.uint32 | np.uint64:
                     data = data.astype(np.int64)
             # Remove any unnecessary dimensions
-            return torch.tensor(np.squeeze(data))
+            # remove singleton dimensions, but keep the first dimension (acquisitions) also for a single acquisition
+            return torch.tensor(np.squeeze(data, axis=tuple(i for i in range(1, data.ndim) if data.shape[i] == 1)))
 
         def tensor_2d(data: np.ndarray) -> torch.Tensor:
             # Convert tensor to torch dtypes and ensure it is atleast 2D
